@@ -19,7 +19,7 @@ SHARDS = {"quick": 8, "thorough": 16}
 TIME_BUDGET = {"quick": 90, "thorough": 900}
 FLOORS = {"quick": {"short_writes": 5000, "tcp_pushes": 2, "tcp_short_sends": 1, "distinct": 100}, "thorough": {"short_writes": 100000, "tcp_pushes": 12}}
 
-CAPS = ["1", "23", "24", "25", "4095", "const", "random", "random0", "once"]
+CAPS = ["1", "23", "24", "25", "4095", "const", "random", "random0", "once", "stuck"]
 
 
 def gen_cases(tier, seed):
@@ -41,6 +41,9 @@ def capfn(name, rng):
         return lambda call, n, r: r.choice([1, 24, r.randint(1, max(1, n)), n, n, max(1, n - 1)])
     if name == "random0":
         return lambda call, n, r: r.choice([0, 1, r.randint(0, n), n, n])
+    if name == "stuck":
+        k = rng.randint(3, 60)
+        return lambda call, n, r: (n if call < k else (r.randint(0, 3) if call == k else 0))     # the peer stops draining for good
     if name == "once":
         k = rng.randint(0, 40)
         return lambda call, n, r: (max(1, n // 2) if call == k else n)
@@ -79,6 +82,18 @@ def run_mem(case, stats):
         stats["write_calls"] += len(writes)
         stats["short_writes"] += max(0, len(writes) - 2 * len(log1))  # more write calls than header+payload pairs means retries after short writes
         raised = [i for i, (_, o, _) in enumerate(res1) if not o.ok]
+        if case["cap"] == "stuck":
+            # nothing can be delivered any more: every call must raise (never return as if sent), in bounded virtual time
+            stats["stuck_runs"] += 1
+            for i, (step, o, v) in enumerate(res1):
+                if not o.ok and o.kind == "budget":
+                    viol.append({"mechanism": "write-loop-does-not-terminate", "detail": "peer stuck: step %d %s: %s" % (i, step["op"], o.brief(120))})
+                elif not o.ok and o.exc_name() not in ("AdbTimeoutError", "TcpTimeoutException"):
+                    viol.append({"mechanism": "stuck-wrong-exception", "detail": "peer stuck: step %d %s raised %s" % (i, step["op"], o.brief(120))})
+            if all(o.ok for (_, o, _) in res1) and sess.sim.parser.pending():
+                viol.append({"mechanism": "short-write-truncates-message", "detail": "peer stuck: every call returned although %d bytes of a message never arrived" % sess.sim.parser.pending()})
+            stats["messages_compared"] += len(log1)
+            return ("mem|%s|stuck|%s" % (case["impl"], ",".join(s["op"] for s in sc["steps"]))), viol, None
         for i, (step, o, v) in enumerate(res1):
             if o.ok and v:
                 viol.append({"mechanism": "wrong-result", "detail": "cap=%s: step %d %s returned a wrong result: %s" % (case["cap"], i, step["op"], v[0]["detail"][:160])})
@@ -195,7 +210,7 @@ def run_tcp(case, stats):
 
 
 def run_case(case):
-    stats = {"short_writes": 0, "write_calls": 0, "messages_compared": 0, "tcp_pushes": 0, "tcp_short_sends": 0, "tcp_bytes": 0, "sndbuf_applied": 0, "tcp_inconclusive": 0}
+    stats = {"short_writes": 0, "write_calls": 0, "messages_compared": 0, "tcp_pushes": 0, "tcp_short_sends": 0, "tcp_bytes": 0, "sndbuf_applied": 0, "tcp_inconclusive": 0, "stuck_runs": 0}
     if case["kind"] == "mem":
         sig, viol, sample = run_mem(case, stats)
     else:
